@@ -17,7 +17,7 @@ CONSTANTS
   ImpPairs <- MCImpQ
   InitSchemas <- MCInit2P
   MaxHist = 5
-  Dev <- MCAllDevs
+  Dev <- MCCurDevs
 VIEW View
 INVARIANTS TypeOK SchemaOK LayoutOK GenerateTotal
 PROPERTIES MethodsKeptND FilesParseND IdealRecorded Deterministic
